@@ -668,6 +668,9 @@ class Interp(object):
             if f.parent is None:
                 break
             f = f.parent
+        tf = getattr(self, 'top_frame', None)
+        if tf is not None and name in tf.env and self.frame.contract_mode:
+            return tf.env[name]         # ghost / contract parameters seen from clauses
         g = self.frame.globs
         # global overrides (ghost globals such as coreparams)
         mname = g.get('__name__')
@@ -1004,7 +1007,90 @@ class Interp(object):
         return out
 
     def symbolic_comprehension(self, n, g, it):
-        raise OutOfReach('comprehension over symbolic-length iterable')
+        """Comprehension over a symbolic-length iterable = loop with an implicit
+        accumulator `_acc`; its invariant is declared as invariant('c<k>', ...)
+        where k is the ordinal of the comprehension in the function."""
+        code = getattr(self.frame, 'code', None)
+        f = self.frame
+        while code is None and f.parent is not None:
+            f = f.parent
+            code = getattr(f, 'code', None)
+        specs = self.loop_specs.get(code) or {}
+        key = 'c%d' % self.comp_ordinal(code, n)
+        spec = specs.get(key)
+        if spec is None:
+            # identity / pure map fast path: tuple(f(x) for x in xs) where f returns x
+            r = self.try_identity_map(n, g, it)
+            if r is not None:
+                return r
+            raise OutOfReach('comprehension over symbolic-length iterable without invariant (%s in %s)'
+                             % (key, self.frame.fname))
+        acc = self.alloc(ListCell(items=[]))
+        sub = Frame({'_acc': acc}, self.frame.globs, parent=self.frame, defcls=None, fname=self.frame.fname)
+        sub.code = code
+        body = ast.Expr(ast.Call(func=ast.Attribute(value=ast.Name(id='_acc', ctx=ast.Load()), attr='append',
+                                                    ctx=ast.Load()), args=[n.elt], keywords=[]))
+        stmts = [body]
+        for cnd in reversed(g.ifs):
+            stmts = [ast.If(test=cnd, body=stmts, orelse=[])]
+        loop = ast.For(target=g.target, iter=g.iter, body=stmts, orelse=[], lineno=n.lineno,
+                       col_offset=n.col_offset)
+        ast.fix_missing_locations(loop)
+        saved = self.frame
+        self.frame = sub
+        try:
+            self.invariant_loop(loop, spec, 'for', iterable=it)
+        finally:
+            self.frame = saved
+        return acc
+
+    def try_identity_map(self, n, g, it):
+        if g.ifs or not isinstance(g.target, ast.Name):
+            return None
+        from .gens import iteration_protocol
+        try:
+            length, elem = iteration_protocol(self, it)
+        except OutOfReach:
+            return None
+        q = self.fresh_int('q')
+        x = elem(q)
+        sub = Frame({g.target.id: x}, self.frame.globs, parent=self.frame, defcls=None, fname='<comp>')
+        saved = self.frame
+        self.frame = sub
+        n0 = len(self.st.pc)
+        self.st.pc.append(z3.And(q >= 0, q < length))
+        try:
+            self.pure += 1
+            try:
+                v = self.eval(n.elt)
+            finally:
+                self.pure -= 1
+        except (OutOfReach, PyRaise):
+            return None
+        finally:
+            del self.st.pc[n0]
+            self.frame = saved
+        if v is x or (isinstance(v, SymObj) and isinstance(x, SymObj) and v.t.eq(x.t)):
+            if isinstance(it, STup):
+                return it
+            ek = self.seq_elem_kind(it)
+            if ek is not None:
+                return STup(self.any_seq_term_k(it, ek), ek)
+        return None
+
+    _comp_ord = {}
+
+    def comp_ordinal(self, code, node):
+        if code not in self._comp_ord:
+            fnode = _src_cache[code][0] if code in _src_cache else None
+            m = {}
+            if fnode is not None:
+                comps = [x for x in ast.walk(fnode) if isinstance(x, (ast.ListComp, ast.GeneratorExp))]
+                comps.sort(key=lambda x: (x.lineno, x.col_offset))
+                for k, x in enumerate(comps):
+                    m[(x.lineno, x.col_offset)] = k
+            self._comp_ord[code] = m
+        return self._comp_ord[code].get((node.lineno, node.col_offset))
 
     # ------------------------------------------------------------- arithmetic
     def binop(self, op, a, b):
